@@ -11,7 +11,7 @@ RULE = ('grammar scripts (comment-free; with window calls, AT TIME ZONE, INTERVA
         'under every inner-whitespace and casing variant; compared: statement count, get_type, tree shape (classes, nesting, significant leaves with keywords normalised); '
         'non-trivial = distinct (script, respelling) pair whose texts differ')
 ASSUMPTIONS = ['lexical clause (multi-word keywords are one token for every inner whitespace and casing) sampled through S-LEX on the respelled texts']
-PARTIAL = ['splitter: view-invariance theorem; grouping: respell_group (values of existing tokens: keyword case, inner whitespace of multi-word keywords, whitespace values) and whitespace_count_invariant (number/type of whitespace tokens, on the decidable domain InDomain: no comment token, no := token, WsDomain) are theorems over all 25 passes; with comments or := the statement is false for the library (known findings KF-C11-1/2); the lexical step (re-spelled text lexes to WsEquiv token lists) and get_type are checked by the metamorphic oracle on the real code']
+PARTIAL = ['splitter: view-invariance theorem; grouping: respell_group (values of existing tokens: keyword case, inner whitespace of multi-word keywords, whitespace values) and whitespace_count_invariant (number/type of whitespace tokens, on the decidable domain InDomain: no comment token, no := token, WsDomain) are theorems over all 25 passes; with comments or := the statement is false for the library (known findings KF-C11-1/2); the lexical step (re-spelled text lexes to WsEquiv token lists) is a theorem for re-spellings that keep the number of whitespace characters, under the decidable wsRespellable (DOMAIN(wsrespell)); length-changing whitespace runs at text level and get_type are checked by the metamorphic oracle on the real code']
 WS = [' ', '  ', '\t', '\n', '\r\n', ' \n ', '\n\n', '\t ']
 
 
@@ -325,8 +325,46 @@ def run(ctx):
                     ctx.mismatch('DOMAIN(wsdomain)', [sub[i], sub[i + 1]], sk[i + 1][:200], sk[i][:200])
         ctx.dist['wsdomain_pairs_in_domain'] = indom
         ctx.dist['wsdomain_pairs'] = pairs
+        domain_wsrespell(ctx, [t for t in texts[::2] if len(t) < 1500][: ctx.n(1500, 20000)] + [gen.g2(rng) for _ in range(ctx.n(400, 6000))] + [gen.mixed(rng) for _ in range(ctx.n(300, 4000))])
     else:
         ctx.notes.append('model driver unavailable: correspondence streams skipped')
+
+
+WS_CHARS = ' \t\n\r\x0b\x0c\x1c\x1d\x1e\x1f\x85\xa0\u1680\u2000\u2003\u200a\u2028\u2029\u202f\u205f\u3000'
+
+
+def ws_canon(text):
+    """the real lexer's tokens with every maximal run of whitespace tokens collapsed to one marker (the relation WsEquiv of the model)"""
+    out = []
+    for tt, v in lexer.tokenize(text):
+        if tt in T.Whitespace:
+            if not out or out[-1] is not None:
+                out.append(None)
+        else:
+            out.append((str(tt), v))
+    return out
+
+
+def domain_wsrespell(ctx, originals):
+    """DOMAIN(wsrespell): hypothesis of `respelled_text_lexes_equivalently` evaluated by the Lean driver on the lexed original; where it holds, every
+    whitespace character is replaced by a random other `\\s` character (same count — what the theorem covers) and the REAL lexer must produce
+    WsEquiv token lists.  A mismatch inside the domain is a broken tie (then searched for a failing input by the oracle)."""
+    rng = ctx.rng
+    outs = ctx.model.ask(['wsrespell ' + hexs(t) for t in originals])
+    indom = 0
+    for t, o in zip(originals, outs):
+        ctx.stream('DOMAIN(wsrespell)', inputs=1, lines=1)
+        if not o.startswith('ok 1'):
+            continue
+        indom += 1
+        for _ in range(2):
+            b = ''.join(rng.choice(WS_CHARS) if (tt in T.Whitespace) else ch
+                        for tt, v in lexer.tokenize(t) for ch in v)
+            if ws_canon(b) != ws_canon(t):
+                ctx.mismatch('DOMAIN(wsrespell)', [t, b], 'real lexer: token lists not WsEquiv', 'WsEquiv (theorem respelled_text_lexes_equivalently)')
+                break
+    ctx.dist['wsrespell_texts_in_domain'] = indom
+    ctx.dist['wsrespell_texts'] = len(originals)
 
 
 def classify(f, kf):
